@@ -11,6 +11,7 @@ from .stmts import IterView, ExcVal, GenResult
 
 STR = z3.StringSort()
 INT = z3.IntSort()
+ABSENT = type('Absent', (), {'__repr__': lambda self: '<absent>'})()
 
 
 def _has_yield(node):
@@ -759,8 +760,14 @@ class CallMixin:
         (is None, value) with a fixed default value when None"""
         zs = self.zs
         dom, a2 = [zs.zsort(api.Obj)], [recv_term]
+        args = list(args) + [ABSENT] * (len(argsorts) - len(args))
         for x, s_ in zip(args, argsorts):
-            if isinstance(s_, api.Opt):
+            if isinstance(s_, api.Opt) and x is ABSENT:
+                # a keyword argument that was not given is not the same as an explicit None
+                zi = zs.zsort(s_.inner)
+                dom += [z3.BoolSort(), zi]
+                a2 += [z3.BoolVal(True), z3.StringVal('\x00absent') if zi == STR else z3.Const('absent!' + str(zi), zi)]
+            elif isinstance(s_, api.Opt):
                 zi = zs.zsort(s_.inner)
                 dom += [z3.BoolSort(), zi]
                 dflt = z3.StringVal('') if zi == STR else z3.IntVal(0) if zi == INT else z3.Const('none!' + str(zi), zi)
